@@ -77,7 +77,7 @@ def run(tier):
     # a consumer of the generated header, optimised: attributes in <crypt.h> act in the caller
     hacc = common.Acc()
     for lvl in ("-O2", "-O3"):
-        hexe = tree.program("opt", "vhdr.c", name="vhdr-opt" + lvl, wrap=False, extra_cflags=lvl)
+        hexe = tree.program("opt", "vhdr.c", name="vhdr-app" + lvl, wrap=False, extra_cflags=lvl, consumer=True)
         hp = subprocess.run([hexe], stdout=subprocess.PIPE, stderr=subprocess.PIPE, text=True, timeout=300)
         for ln in hp.stdout.splitlines():
             if ln.startswith("VIOL "):
